@@ -102,10 +102,13 @@ func Verify(root *etree.Element, sigpath string, extraCerts []*x509.Certificate)
 		certs = append(certs, cert)
 	}
 	// check signature
-	signedinfo := sigEl.SelectElement("SignedInfo")
-	if signedinfo == nil {
+	// the fields parsed above come from every SignedInfo child while only one
+	// of them is covered by the signature value, so insist on exactly one
+	signedinfos := sigEl.SelectElements("SignedInfo")
+	if len(signedinfos) != 1 {
 		return nil, errors.New("xmldsig: invalid signature")
 	}
+	signedinfo := signedinfos[0]
 	siCalc, err := hashCanon(signedinfo, hash)
 	if err != nil {
 		return nil, err
